@@ -273,6 +273,8 @@ def audit_axioms(modules):
     rc, out = sh(['lake', 'env', 'lean', p], cwd=LEAN, timeout=1200)
     thms = []
     for m in re.finditer(r'THEOREM (\S+) AXIOMS \[(.*?)\]', out, re.S):
+        if re.search(r'\.(eq_\d+|eq_def|congr_simp|sizeOf_spec|injEq|inj|match_\d+.*|proof_\d+)$', m.group(1)):
+            continue   # compiler-generated equation lemmas etc., not property theorems
         axs = [a.strip() for a in m.group(2).replace('\n', ' ').split(',') if a.strip()]
         thms.append({'name': m.group(1), 'axioms': axs})
     return rc == 0, thms, out
